@@ -1303,6 +1303,7 @@ func qyMethod(s *tiSrc, spec *qySpec) (string, error) {
 
 func genQueries(repo, out string) error {
 	s := tiNew(repo)
+	s.norm.keepAndCond = true // syntaxBasicCompareQuery.compute tests `leftFound && rightFound` in one if
 	var files []string
 	for _, sp := range qySpecs {
 		files = append(files, sp.file)
